@@ -335,6 +335,24 @@ class ExprMixin:
         return z3.Not(lt(b.t, a.t))
       if isinstance(op, ast.GtE):
         return z3.Not(lt(a.t, b.t))
+    ta, tb = self._tuple_items(a), self._tuple_items(b)
+    if ta is not None and tb is not None:
+      # lexicographic order on tuples of ints of equal length
+      if len(ta) != len(tb) or not ta:
+        raise Unsupported('tuple comparison of different lengths')
+      lt = z3.BoolVal(False)
+      for x, y in reversed(list(zip(ta, tb))):
+        ix, iy = self.as_int(x), self.as_int(y)
+        lt = z3.Or(ix < iy, z3.And(ix == iy, lt))
+      eq = z3.And(*[self.as_int(x) == self.as_int(y) for x, y in zip(ta, tb)])
+      if isinstance(op, ast.Lt):
+        return lt
+      if isinstance(op, ast.LtE):
+        return z3.Or(lt, eq)
+      if isinstance(op, ast.Gt):
+        return z3.Not(z3.Or(lt, eq))
+      if isinstance(op, ast.GtE):
+        return z3.Not(lt)
     ia, ib = self.as_int(a), self.as_int(b)
     if isinstance(op, ast.Lt):
       return ia < ib
@@ -345,6 +363,13 @@ class ExprMixin:
     if isinstance(op, ast.GtE):
       return ia >= ib
     raise Unsupported('compare op')
+
+  def _tuple_items(self, v):
+    if isinstance(v, PyTuple):
+      return list(v.items)
+    if isinstance(v, V) and isinstance(v.sort, S.Tup):
+      return [V(s, v.sort.get(v.t, i)) for i, s in enumerate(v.sort.elems)]
+    return None
 
   def equal(self, a, b, is_=False):
     if a is NONE and b is NONE:
